@@ -643,6 +643,12 @@ class IteratorQueue(IterableQueue[_ValueT]):
           result.append(self.get_nowait())
           logging.debug('chainable: %s', 'dequeued one')
         except (queue.Empty, asyncio.QueueEmpty) as e:
+          if e is self._exception:
+            # Not an empty queue: the failure of an enqueuer that happens to be
+            # of that type (e.g., it polls another queue).
+            if self.ignore_error:
+              break
+            raise
           if (not block and result) or (
               block and max_batch_size and len(result) == max_batch_size
           ):
@@ -686,6 +692,9 @@ class IteratorQueue(IterableQueue[_ValueT]):
           )
           return value
         except (queue.Empty, asyncio.QueueEmpty) as e:
+          if e is self._exception:
+            # Not an empty queue: the failure of an enqueuer of that type.
+            raise
           logging.debug(
               'chainable: %s', f'"{self.name}" dequeue empty, waiting'
           )
